@@ -535,6 +535,22 @@ func (f *fsm) drainAndResetHoldTimer() {
 	f.holdTimer.Reset(f.holdTime)
 }
 
+// keepAliveTimerCh returns the keepAlive timer's channel, or a nil channel
+// (which never becomes ready) when the negotiated hold time is zero and no
+// keepAlive timer exists.
+func (f *fsm) keepAliveTimerCh() <-chan time.Time {
+	if f.keepAliveTimer == nil {
+		return nil
+	}
+	return f.keepAliveTimer.C
+}
+
+func (f *fsm) stopKeepAliveTimer() {
+	if f.keepAliveTimer != nil {
+		f.keepAliveTimer.Stop()
+	}
+}
+
 // handleNotificationInErr checks if the error unwraps to a notificationError.
 // If a notificationError is found and its out field is true, the Notification
 // is sent to the peer and the function returns true, otherwise it returns
@@ -648,6 +664,11 @@ func (f *fsm) openSent() (fsmState, error) {
 					f.keepAliveInterval = f.holdTime / 3
 					f.keepAliveTimer = time.NewTimer(f.keepAliveInterval)
 					f.drainAndResetHoldTimer()
+				} else {
+					// a hold time of zero means no KEEPALIVEs and a session that
+					// never expires: neither timer may be left running
+					f.keepAliveTimer = nil
+					f.holdTimer.Stop()
 				}
 
 				return openConfirmState, nil
@@ -695,6 +716,7 @@ func (f *fsm) openSent() (fsmState, error) {
 // https://tools.ietf.org/html/rfc4271#page-67
 func (f *fsm) openConfirm() (fsmState, error) {
 	openConfirm := func() (fsmState, error) {
+		keepAliveCh := f.keepAliveTimerCh()
 		for {
 			select {
 			case <-f.closeCh:
@@ -705,7 +727,7 @@ func (f *fsm) openConfirm() (fsmState, error) {
 				n := newNotification(NOTIF_CODE_HOLD_TIMER_EXPIRED, 0, nil)
 				f.sendNotification(n) // nolint: errcheck
 				return idleState, newNotificationError(n, true)
-			case <-f.keepAliveTimer.C:
+			case <-keepAliveCh:
 				err := f.sendKeepAlive()
 				if err != nil {
 					return idleState, fmt.Errorf("error sending keepAlive: %w", err)
@@ -728,7 +750,9 @@ func (f *fsm) openConfirm() (fsmState, error) {
 							- restarts the HoldTimer and
 							- changes its state to Established.
 					*/
-					f.drainAndResetHoldTimer()
+					if f.holdTime != 0 {
+						f.drainAndResetHoldTimer()
+					}
 					return establishedState, nil
 				case *Notification:
 					return idleState, newNotificationError(m, false)
@@ -770,7 +794,7 @@ func (f *fsm) openConfirm() (fsmState, error) {
 	if to != establishedState {
 		f.cleanupConnAndReader()
 		f.holdTimer.Stop()
-		f.keepAliveTimer.Stop()
+		f.stopKeepAliveTimer()
 	}
 	return to, err
 }
@@ -839,6 +863,7 @@ func (f *fsm) established() (fsmState, error) {
 		}()
 		handler := f.peer.plugin.OnEstablished(f.peer.config, writer)
 
+		keepAliveCh := f.keepAliveTimerCh()
 		for {
 			select {
 			case <-f.closeCh:
@@ -849,7 +874,7 @@ func (f *fsm) established() (fsmState, error) {
 				n := newNotification(NOTIF_CODE_HOLD_TIMER_EXPIRED, 0, nil)
 				f.sendNotification(n) // nolint: errcheck
 				return idleState, newNotificationError(n, true)
-			case <-f.keepAliveTimer.C:
+			case <-keepAliveCh:
 				err := f.sendKeepAlive()
 				if err != nil {
 					return idleState, fmt.Errorf("error sending keepAlive: %w", err)
@@ -948,7 +973,7 @@ func (f *fsm) established() (fsmState, error) {
 	to, err := established()
 	f.cleanupConnAndReader()
 	f.holdTimer.Stop()
-	f.keepAliveTimer.Stop()
+	f.stopKeepAliveTimer()
 	f.peer.plugin.OnClose(f.peer.config)
 	return to, err
 }
